@@ -343,14 +343,14 @@ func (fx *FnCtx) copyElems(st *State, pc *Term, elem types.Type, dst, dstStart, 
 		oldDst := Select(h, dst)
 		oldSrc := Select(h, src)
 		nw := Fresh("cp_"+name, oldDst.Sort)
-		j := BoundVar("j", tc.IdxSort())
-		in := And(tc.IdxLe(tc.IdxNum(0), j), tc.IdxLt(j, n))
-		a1 := Forall([]*Term{j}, Implies(in, Eq(Select(nw, tc.IdxAdd(dstStart, j)), Select(oldSrc, tc.IdxAdd(srcStart, j)))))
+		// one axiom over the absolute index i, triggered by any read nw[i]:
+		//   nw[i] = (dstStart <= i < dstStart+n) ? oldSrc[i - dstStart + srcStart] : oldDst[i]
 		i := BoundVar("i", tc.IdxSort())
-		out := Or(tc.IdxLt(i, dstStart), tc.IdxLe(tc.IdxAdd(dstStart, n), i))
-		a2 := Forall([]*Term{i}, Implies(out, Eq(Select(nw, i), Select(oldDst, i))))
+		in := And(tc.IdxLe(dstStart, i), tc.IdxLt(i, tc.IdxAdd(dstStart, n)))
+		srcIdx := tc.IdxAdd(tc.IdxSub(i, dstStart), srcStart)
+		ni := Select(nw, i)
+		a1 := Forall([]*Term{i}, Eq(ni, Ite(in, Select(oldSrc, srcIdx), Select(oldDst, i))), []*Term{ni})
 		fx.assume(Implies(pc, a1))
-		fx.assume(Implies(pc, a2))
 		st.Heaps[name] = Store(h, dst, nw)
 	}
 }
